@@ -57,6 +57,7 @@ fn start2(small: usize, cache: bool) -> Server {
                 match req.recv_body(m) { Ok(_) => Response::text(200, format!("len={}", blen.unwrap_or(0))), Err(resp) => resp }
             }
             Some("code") => Response::text(seg[2].parse().unwrap(), "x"),
+            Some("big") => Response::new(200).with_body(vec![b'a'; seg[2].parse().unwrap()]), // a body larger than the socket buffers
             _ => Response::text(200, "ok"),
         }
     };
@@ -174,6 +175,25 @@ fn pipebody(s: &Server, small: usize, lens: &[usize]) -> Option<String> {
     if seen != want { return Some(format!("{desc} expected=each-handler-sees-its-own-body {want:?} actual={seen:?}")); }
     None
 }
+/// a client that stops reading for `secs` seconds in the middle of a large response and then reads on: whatever it receives is a
+/// prefix of the one correct response -- no second status line or other bytes after a response that was partly sent
+fn stall(s: &Server, len: usize, secs: u64) -> Option<String> {
+    let desc = format!("stall len={len} secs={secs}");
+    let mut c = TcpStream::connect_timeout(&s.addr, Duration::from_secs(2)).unwrap();
+    c.set_read_timeout(Some(Duration::from_secs(10))).unwrap();
+    let _ = c.write_all(format!("GET /big/{len} HTTP/1.1\r\n\r\n").as_bytes());
+    let _ = c.shutdown(Shutdown::Write);
+    std::thread::sleep(Duration::from_secs(secs));
+    let mut out = Vec::new();
+    let _ = c.read_to_end(&mut out);
+    let Some(p) = out.windows(4).position(|w| w == b"\r\n\r\n") else { return Some(format!("{desc} expected=a response head actual={} bytes without one", out.len())) };
+    let head = String::from_utf8_lossy(&out[..p]).to_string();
+    if !head.starts_with("HTTP/1.1 200 ") || !head.to_ascii_lowercase().contains(&format!("content-length: {len}")) { return Some(format!("{desc} expected=200 with content-length {len} actual=head {head:?}")); }
+    let body = &out[p + 4..];
+    if let Some(k) = body.iter().position(|b| *b != b'a') { return Some(format!("{desc} expected=a prefix of the {len} body bytes actual=other bytes after {k} body bytes: {:?}", String::from_utf8_lossy(&body[k..(k + 60).min(body.len())]))); }
+    if body.len() > len { return Some(format!("{desc} expected=at most {len} body bytes actual={}", body.len())); }
+    None
+}
 fn main() {
     std::panic::set_hook(Box::new(|_| {}));
     let args: Vec<String> = std::env::args().collect();
@@ -184,6 +204,7 @@ fn main() {
         let r = if w.starts_with("upload") { let nc = w.contains("nocache=1"); let s = start2(n[0] as usize, !nc); upload2(&s, n[0] as usize, n[1], n[2] as usize, w.contains("declared=true"), w.contains("split_head_body=true"), nc) }
             else if w.starts_with("pipebody") { let s = start(n[0] as usize); let lens: Vec<usize> = n[1..].iter().map(|x| *x as usize).collect(); pipebody(&s, n[0] as usize, &lens) }
             else if w.starts_with("recvbody") { let s = start(n[0] as usize); upload_rb(&s, n[0] as usize, n[1], n[2] as usize, w.contains("declared=true")) }
+            else if w.starts_with("stall") { let s = start(100); stall(&s, n[0] as usize, n[1]) }
             else if w.starts_with("bodyfile") { let s = start(100); short_file2(&s, n[0] as usize, n[1] as usize, w.contains("status=503")) }
             else { let s = start(100); let codes: Vec<u16> = n.iter().map(|x| *x as u16).collect(); pipeline(&s, &codes) };
         match r { Some(m) => { println!("WITNESS {m}"); std::process::exit(1) } None => { println!("OK witness no longer fails"); std::process::exit(0) } }
@@ -214,6 +235,11 @@ fn main() {
             for lens in [vec![3usize, 2], vec![1, 1, 1], vec![0, 5, 0, 7], vec![small, 1, small], vec![small + 1, 2, small + 50, 3], vec![2, small + 1, 2], vec![3000, 1, 9000, 2]] { n += 1; if let Some(w) = pipebody(&s, small, &lens) { if found.len() < 6 { found.push(w) } } }
         }
         let _ = &s.files;
+    }
+    {
+        // quick: a short stall; thorough: longer than any plausible write timeout (half a minute)
+        let s = start(100);
+        for secs in if args.iter().any(|a| a == "--thorough") { vec![2u64, 33] } else { vec![2u64] } { n += 1; if let Some(w) = stall(&s, 24 << 20, secs) { if found.len() < 6 { found.push(w) } } }
     }
     // a server without a directory for large bodies: limits at and around the in-memory threshold
     for small in [100usize, 1000] {
